@@ -397,8 +397,8 @@ def r5_poweroff(L, repo):
 def run(L, tier):
     repo = Repo(L.repo)
     L.unit(rel("transceiver"))
-    r1_r2(L, repo, tier)
-    r2_arrival(L, repo)
-    r3_partition(L, repo)
-    n = r4_modular(L, repo, tier)
-    r5_poweroff(L, repo)
+    L.stage(r1_r2, L, repo, tier)
+    L.stage(r2_arrival, L, repo)
+    L.stage(r3_partition, L, repo)
+    n = L.stage(r4_modular, L, repo, tier)
+    L.stage(r5_poweroff, L, repo)
